@@ -271,7 +271,7 @@ mod tests {
         assert!(sb.resolve("../../../../../../../../../x").is_some());
         assert!(sb.resolve("../../../../../../../../..").is_none());
         assert!(sb.resolve("../../../../../../../../../../x").is_none());
-        assert!(sb.resolve("a/../../../../../../../../../../x").is_none());
+        assert!(sb.resolve("a/../../../../../../../../../../../x").is_none());
         assert!(sb.resolve("../../../../../../../../../../p/x").is_none());
         assert!(sb.resolve("/etc/passwd").is_none());
         assert!(sb.resolve("/").is_none());
